@@ -88,7 +88,7 @@ def gate(prop, thorough=False):
             names += [(n, 'bridge') for n in th.get('bridge', [])]
             res = []
             if cache['build_ok'] and names:
-                imports = 'import Gamba\n' + ('import Bridge.DFA\nimport Bridge.NFA\nimport Bridge.Regexp\nimport Bridge.CFG\n'
+                imports = 'import Gamba\n' + ('import Bridge.DFA\nimport Bridge.NFA\nimport Bridge.Regexp\nimport Bridge.CFG\nimport Bridge.PDA\n'
                                               if th.get('bridge') else '')
                 src = imports + ''.join('#print axioms %s\n' % n for n, _ in names)
                 tmp = os.path.join(LEAN_DIR, '.lake', 'Audit_%s.lean' % prop)
